@@ -148,5 +148,27 @@ def HopMsg.summary (m : HopMsg) : Bytes × Bytes × Option Nat :=
   | .forwarded _ out => (out.method, out.target, m.body.map (·.1.length))
   | _ => ([], [], none)
 
+/-! ### 3. Counter-models for the two places where the pipeline looks at something other than the
+    client's header fields: the connection's peer address and the credentials table -/
+
+/-- counter-model of `Req.peerHost`: "drop the port" done by cutting `RemoteAddr` at its last colon
+    (the same as `net.SplitHostPort` for every IPv4 peer) -/
+def cutLastColon (remoteAddr : Bytes) : Bytes :=
+  match lastIndexOfByte 58 remoteAddr with
+  | some i => if i > 0 then remoteAddr.take i else remoteAddr
+  | none => remoteAddr
+
+/-- `HTTPProxy.setBasicAuth` with the test "the client authenticates itself" left open: the site
+    credential is attached unless `clientAuthenticates (Header.Get "Authorization")`.  The code's test
+    is "the value is not empty" (`attachSiteCred (fun v => !v.isEmpty)` is the step `processRequest`
+    performs). -/
+def attachSiteCred (clientAuthenticates : Bytes → Bool) (site : Option Bytes) (h : C16.HMap) : C16.HMap :=
+  match site with
+  | some a => if clientAuthenticates (goGet h (bs "Authorization")) then h else C16.goSet h (bs "Authorization") a
+  | none => h
+
+/-- the test of the counter-model: a value of the `Basic` scheme (what `req.BasicAuth()` looks for first) -/
+def basicScheme (v : Bytes) : Bool := Ascii.lower (v.take 6) == bs "basic "
+
 end C01
 end FwdVerif
